@@ -58,7 +58,7 @@ def corner_scenarios(chk: Check) -> list[dict]:
             continue
         count[s.tool] = count.get(s.tool, 0) + 1
         add(f"C15-sast-{s.tool}-{count[s.tool]}", {"code.py": s.input}, ["--codemod-include", s.codemod] + _sast_option(s),
-            resfiles={"results.json": s.results}, what=f"SAST {s.tool} {s.codemod}")
+            resfiles={"results.json": seeds.results_for_cli(s.tool, s.results)}, what=f"SAST {s.tool} {s.codemod}")
     return out
 
 
